@@ -43,9 +43,10 @@ def opIdx0 : TOp := ⟨List.tail, fun _ n => n.tail, fun _ => mapLeaves (fun t =
 def opExpand2 : TOp :=
   ⟨fun b => 2 :: b, fun _ n => none :: n, fun _ => mapLeaves (fun t => ⟨2 :: t.shape, fun c => t.get c.tail⟩)⟩
 
-/-- `torch.stack([td, td], 0)`: values as `expand2`, but torch.stack drops every dimension name -/
+/-- `torch.stack([td, td], 0)`: values as `expand2`; the dimension names are kept, `None` for the new dimension
+(tensordict/_torch_func.py:_stack after the repair "dense torch.stack of named tensordicts dropped the dim names") -/
 def opStackSelf : TOp :=
-  ⟨fun b => 2 :: b, fun b _ => List.replicate (b.length + 1) none, fun _ => mapLeaves (fun t => ⟨2 :: t.shape, fun c => t.get c.tail⟩)⟩
+  ⟨fun b => 2 :: b, fun _ n => none :: n, fun _ => mapLeaves (fun t => ⟨2 :: t.shape, fun c => t.get c.tail⟩)⟩
 
 /-- `td.sum(0)` -/
 def opSum0 : TOp :=
@@ -72,6 +73,13 @@ def opSetMul3 (src dst : String) : TOp :=
 /-- `td.rename_key_(src, dst)` -/
 def opRename (src dst : String) : TOp :=
   ⟨id, fun _ n => n, fun _ l => l.map (fun p => if p.1 == src then (dst, p.2) else p)⟩
+
+/-- `a.apply(lambda x, y: x + y, b)`: leaves paired by key, metadata of `a` -/
+def opAdd2 : TOp2 :=
+  ⟨fun ba _ => ba, fun _ _ na _ => na,
+   fun _ _ la lb => la.map (fun p => match lb.lookup p.1 with
+     | some u => (p.1, ⟨p.2.shape, fun c => p.2.get c + u.get c⟩)
+     | none => p)⟩
 
 /-- is the operation applicable to a tensordict of this batch size / these keys (else the real call raises) -/
 inductive OpName where
